@@ -69,7 +69,7 @@ A0(c) ==
      ELSE IF total < Max /\ nextConn < MaxConn
      THEN /\ total' = total + 1 /\ nextConn' = nextConn + 1
           /\ cconn' = [cconn EXCEPT ![c] = nextConn + 1]
-          /\ pc' = [pc EXCEPT ![c] = "A3"]
+          /\ pc' = [pc EXCEPT ![c] = "A2"]
           /\ UNCHANGED <<free, reqs, chan, nextKey, ckey, cgen>>
      ELSE IF total < Max THEN FALSE  \* model bound on connections reached
      ELSE /\ nextKey' = nextKey + 1
@@ -81,6 +81,15 @@ A0(c) ==
           /\ UNCHANGED <<total, free, nextConn, cconn>>
   /\ Lab([a |-> "A0", c |-> c])
   /\ UNCHANGED <<cancelled, inv, ready, killed, deleted, deadSig, runDone, stuckGen, muHolder, bg, w>>
+
+\* case 2: c.mu released, the slot is reserved in total; createConnection runs the user's
+\* connection constructor and starts the supervising goroutine (the constructor is a scheduling point)
+A2(c) ==
+  /\ pc[c] = "A2"
+  /\ pc' = [pc EXCEPT ![c] = "A3"]
+  /\ Lab([a |-> "A2", c |-> c])
+  /\ UNCHANGED <<cconn, ckey, cgen, cancelled, inv, total, free, nextConn, reqs, chan, nextKey, ready, killed, deleted, deadSig, runDone, stuckGen, muHolder, bg, w>>
+InCtor(r) == \E c \in Callers : pc[c] = "A2" /\ cconn[c] = r
 
 \* case 1: dead check after unlock (c.dead needs the mutex)
 A1(c) ==
@@ -210,12 +219,12 @@ Cancel(c) ==
   /\ UNCHANGED <<pc, cconn, ckey, cgen, inv, total, free, nextConn, reqs, chan, nextKey, ready, killed, deleted, deadSig, runDone, stuckGen, muHolder, bg, w>>
 
 BecomeReady(r) ==
-  /\ r \in 1..nextConn /\ r \notin ready /\ r \notin killed
+  /\ r \in 1..nextConn /\ r \notin ready /\ r \notin killed /\ ~InCtor(r)
   /\ ready' = ready \cup {r}
   /\ Lab([a |-> "Ready", r |-> r])
   /\ UNCHANGED <<pc, cconn, ckey, cgen, cancelled, inv, total, free, nextConn, reqs, chan, nextKey, killed, deleted, deadSig, runDone, stuckGen, muHolder, bg, w>>
 Kill(r) ==        \* the connection breaks: Invoke on it fails from now on
-  /\ r \in 1..nextConn /\ r \notin killed
+  /\ r \in 1..nextConn /\ r \notin killed /\ ~InCtor(r)
   /\ killed' = killed \cup {r}
   /\ Lab([a |-> "Kill", r |-> r])
   /\ UNCHANGED <<pc, cconn, ckey, cgen, cancelled, inv, total, free, nextConn, reqs, chan, nextKey, ready, deleted, deadSig, runDone, stuckGen, muHolder, bg, w>>
@@ -244,7 +253,7 @@ BgDrop(r) ==
   /\ UNCHANGED <<pc, cconn, ckey, cgen, cancelled, inv, total, free, nextConn, reqs, chan, nextKey, ready, killed, deleted, deadSig, runDone, stuckGen, muHolder, w>>
 
 Next ==
-  \/ \E c \in Callers : Start(c) \/ A0(c) \/ A1(c) \/ A3ctx(c) \/ A3ready(c) \/ A3dead(c)
+  \/ \E c \in Callers : Start(c) \/ A0(c) \/ A1(c) \/ A2(c) \/ A3ctx(c) \/ A3ready(c) \/ A3dead(c)
         \/ A4pre(c) \/ A4recv(c) \/ A4stuck(c) \/ A4ctx(c)
         \/ DelKey(c, "A5", "A6") \/ DelKey(c, "A7", "A8") \/ A6(c) \/ A8(c)
         \/ InvokeOk(c) \/ InvokeDeadErr(c) \/ R0(c) \/ T1(c) \/ Cancel(c)
@@ -263,12 +272,12 @@ NoDeadHandOut == [][~w'.deadHandOut]_vars
 InFree(r) == \E i \in 1..Len(free) : free[i] = r
 Receivable(k) == \E c \in Callers : ckey[c] = k /\ pc[c] \in {"A4pre", "A4", "A5", "A6", "A7", "A8"}
 InChan(r) == \E k \in 1..Len(chan) : chan[k] = r /\ Receivable(k)
-HeldBy(r) == \E c \in Callers : cconn[c] = r /\ pc[c] \in {"A1", "A3", "hold", "R0ok", "R0fail", "T1ok", "T1fail"}
+HeldBy(r) == \E c \in Callers : cconn[c] = r /\ pc[c] \in {"A1", "A2", "A3", "hold", "R0ok", "R0fail", "T1ok", "T1fail"}
 Accounted(r) == InFree(r) \/ InChan(r) \/ HeldBy(r) \/ r \in bg
 Conservation == \A r \in 1..nextConn : r \notin deleted /\ r \notin runDone => Accounted(r)
 
 Waiting(c) == pc[c] = "A4" /\ ~cancelled[c] /\ chan[ckey[c]] = None /\ stuckGen = cgen[c]
-Busy == \/ \E c \in Callers : pc[c] \in {"A0","A1","A3","A4pre","A5","A6","A7","A8","hold","R0ok","R0fail","T1ok","T1fail"}
+Busy == \/ \E c \in Callers : pc[c] \in {"A0","A1","A2","A3","A4pre","A5","A6","A7","A8","hold","R0ok","R0fail","T1ok","T1fail"}
         \/ bg # {}
 NoStrandedWaiter == \A c \in Callers : Waiting(c) /\ ~Busy => ~(free # <<>> \/ total < Max)
 
